@@ -7,6 +7,7 @@ import (
 	"sync"
 
 	"github.com/fxamacker/cbor/v2"
+	"github.com/taurusgroup/multi-party-sig/internal/cborutil"
 	"github.com/taurusgroup/multi-party-sig/internal/round"
 )
 
@@ -97,7 +98,7 @@ func (h *TwoPartyHandler) canAdvance() bool {
 
 func extractRoundMessage(r round.Session, msg *Message) (round.Message, error) {
 	content := r.MessageContent()
-	if err := cbor.Unmarshal(msg.Data, content); err != nil {
+	if err := cborutil.Unmarshal(msg.Data, content); err != nil {
 		return round.Message{}, fmt.Errorf("failed to unmarshal message: %w", err)
 	}
 	roundMsg := round.Message{
